@@ -185,6 +185,13 @@ def b_list(eng, n, st):
             p = eng.ev(inner.args[1], st)
             eng.assumptions_used.add("assumed: " + ASSUMED["re.split-path"])
             return path_tokens(eng, p, st, n)
+    if isinstance(a, ast.Call) and isinstance(a.func, ast.Attribute) and a.func.attr == "keys" and not a.args:
+        d = eng.ev(a.func.value, st)
+        if isinstance(d.ty, OrdDictT):
+            return Val(d.ty.keys(d.t), d.ty.kl)
+        if isinstance(d.ty, DictT):
+            seq, _pos = key_order(eng, d.ty.has(d.t), d.ty.k, st)
+            return seq
     v = eng.ev(a, st)
     if isinstance(v.ty, ListT):
         return v
@@ -267,8 +274,21 @@ def b_sorted(eng, n, st):
 
 def sorted_list(eng, v, n, st, key=None):
     """assumed contract of sorted()/list.sort(): permutation (witnessed both ways by ghost maps) + order"""
+    if isinstance(v.ty, SetT) and isinstance(v.ty.elt, IntT):
+        # sorted(set of ints): strictly increasing list with exactly the members (ghost position map, no existential)
+        eng.assumptions_used.add("assumed: " + ASSUMED["sorted"])
+        lty = ListT(INT)
+        res = Val(lty.fresh("sortedset"), lty)
+        L = lty.len(res.t)
+        pos = z3.FreshConst(z3.ArraySort(z3.IntSort(), z3.IntSort()), "spos")
+        i, j, x = z3.FreshConst(z3.IntSort(), "si"), z3.FreshConst(z3.IntSort(), "sj"), z3.FreshConst(z3.IntSort(), "sx")
+        st.assume(L >= 0)
+        st.assume(z3.ForAll([i, j], z3.Implies(z3.And(0 <= i, i < j, j < L), z3.Select(lty.arr(res.t), i) < z3.Select(lty.arr(res.t), j))))
+        st.assume(z3.ForAll([i], z3.Implies(z3.And(0 <= i, i < L), z3.Select(v.t, z3.Select(lty.arr(res.t), i)))))
+        st.assume(z3.ForAll([x], z3.Implies(z3.Select(v.t, x), z3.And(0 <= pos[x], pos[x] < L, z3.Select(lty.arr(res.t), pos[x]) == x))))
+        return res
     if isinstance(v.ty, SetT):
-        raise Unsupported("sorted(set) at line %s" % n.lineno)
+        raise Unsupported("sorted(set) of non-int elements at line %s" % n.lineno)
     ty = v.ty
     if not isinstance(ty, ListT):
         raise Unsupported("sorted of %s" % ty)
@@ -330,7 +350,9 @@ def sorted_list(eng, v, n, st, key=None):
         elif isinstance(ka.ty, TupleT) and all(isinstance(e, IntT) for e in ka.ty.elts):
             le = lex_le([ka.ty.get(ka.t, j) for j in range(len(ka.ty.elts))], [kb.ty.get(kb.t, j) for j in range(len(kb.ty.elts))])
         else:
-            raise Unsupported("sort key type %s" % ka.ty)
+            # keys involving identity strings: the string order is not modelled; only the permutation part of the contract is used
+            eng.assumptions_used.add("sort key with a string component: only 'the result is a permutation' is used (order not modelled)")
+            return res
     else:
         le = ka <= kb
     st.assume(z3.ForAll([a, b], z3.Implies(z3.And(0 <= a, a < b, b < L), le)))
@@ -456,7 +478,16 @@ def b_startswith(eng, recv, n, st):
     raise Unsupported("startswith form at line %s" % n.lineno)
 
 
+def b_same(eng, n, st):
+    """structural (term) equality, stronger than element-wise list equality"""
+    a = eng.ev(n.args[0], st)
+    b = eng.ev(n.args[1], st)
+    a, b = eng.same_type(a, b, st, n)
+    return Val(a.t == b.t, BOOL)
+
+
 BUILTINS = {
+    "same": b_same,
     "getattr": b_getattr,
     "untok": b_untok, "cat": b_cat, "keys": b_keys,
     "forall": b_forall, "exists": b_exists, "implies": b_implies, "iff": b_iff, "old": b_old, "len": b_len, "int": b_int,
